@@ -206,7 +206,9 @@ fn mutate(p: &mut Party, foreign_dids: &[String], round: usize) {
             .properties_mut()
             .insert(format!("meta{i}"), Value::from(ctx::choose(1000) as u64));
           // the remaining metadata fields must survive packing as well
-          match ctx::choose(4) {
+          match ctx::choose(6) {
+            4 => doc.metadata.created = None,
+            5 => doc.metadata.updated = None,
             0 => doc.metadata.deactivated = Some(ctx::choose(2) == 0),
             1 => doc.metadata.updated = identity_core::common::Timestamp::from_unix(ctx::clock() + ctx::choose(1000) as i64).ok(),
             2 => doc.metadata.created = identity_core::common::Timestamp::from_unix(ctx::clock() - ctx::choose(100_000) as i64).ok(),
